@@ -152,7 +152,8 @@ PROPS = {
         "quick": {"cases": 800000},
         "thorough": {"cases": 30000000},
         "rule": "FIPS_MODE build; rapidcheck cases over the catalog of all isal_ entry points (cross-checked against nm: unknown ones are reported as uncovered) x "
-                "self-test state {failed, passed, not yet run + injected failing self test, not yet run + passing self test} x otherwise valid random arguments; XTS "
+                "self-test state {failed, passed, not yet run + injected failing self test, not yet run + passing self test, running on another thread which then publishes "
+                "fail, ... then publishes pass (the call is made on a second real thread and has to wait)} x otherwise valid random arguments; XTS "
                 "additionally with key1 == key2 (same pointer / equal copy, raw and pre-expanded). The (entry x state) grid is covered completely by sampling "
                 "(>=200 argument draws per pair in the quick tier). Oracle: approved entry in a failing state returns ISAL_CRYPTO_ERR_SELF_TEST and every "
                 "output/object byte equals its prefill; in a not-yet-run state the (link-time wrapped) self tests are entered exactly once and before any output byte "
@@ -229,15 +230,16 @@ PROPS = {
     "C15": {
         "title": "Hash length accounting stays exact across the 2^29- and 2^32-byte totals",
         "variant": "default",
-        "quick": {"cases": 64, "opts": ["p32=10"], "budget_s": 900},
-        "thorough": {"cases": 640, "opts": ["p32=50"], "budget_s": 3000},
-        "rule": "rapidcheck cases over algorithm x family (each worker owns the families i = worker mod 16; all 28 ctx families + legacy + isal_): 1..4 contexts of one "
-                "manager, each fed a periodic stream (1 MiB block mapped back to back via memfd, so single segments up to 2^32-1 bytes exist) whose total is "
-                "2^29, 2^32 or 2^32+2^29 plus a residue from {0, 1, B-9, B-8, B-1, B, B+1, 17, 3B+5} (+ optional 0..5000); segmentation = large segments (< 2^32 each) up "
-                "to shortly before the threshold, then 1..5 small segments that walk across it at odd residues. Oracle: digest == reference digest of the stream at that "
-                "total (one reference pass per algorithm with 64 MiB snapshots), total_length == sum of the segment lengths, status COMPLETE. Non-trivial = every job "
-                "(total >= 2^29); distinct = hash of the case JSON.",
-        "assumptions": COMMON_ASSUME + ["the quick tier sends about one job in eight across 2^32 (each costs ~4.3 GiB of reference hashing); the thorough tier one in two"],
+        "quick": {"cases": 48, "opts": ["p32=10", "full32=1"], "budget_s": 1200},
+        "thorough": {"cases": 480, "opts": ["p32=50", "full32=1"], "budget_s": 6000},
+        "rule": "rapidcheck cases over algorithm x family: every worker owns a contiguous slice of the algorithm-sorted family list (28 ctx families + legacy + "
+                "isal_) and takes its families round-robin, so EVERY family is exercised in every run (3 cases per worker in the quick tier); 1..3 contexts of one "
+                "manager are each fed a periodic stream (1 MiB block mapped back to back via memfd, so single segments up to 2^32-1 bytes exist); the first context of "
+                "every case crosses 2^32 or 2^32+2^29, the others 2^29 (or 2^32 with p32 percent); total = threshold + residue from {0, 1, B-9, B-8, B-1, B, B+1, 17, "
+                "3B+5} (+ optional 0..5000); segmentation = large segments (< 2^32 each) up to shortly before the threshold, then 1..5 small segments that walk across "
+                "it at odd residues. Oracle: digest == reference digest of the stream at that total (one reference pass per algorithm with 64 MiB snapshots), "
+                "total_length == sum of the segment lengths, status COMPLETE. Non-trivial = every job (total >= 2^29); distinct = hash of the case JSON.",
+        "assumptions": COMMON_ASSUME + ["every case hashes >= 4.3 GiB per context through the library and once per algorithm through the reference; residues and segmentations are sampled (3 per family in the quick tier)"],
     },
     "C12": {
         "title": "Dispatch binds only to code the CPU/OS can execute, one family per object",
